@@ -169,7 +169,7 @@ def check_qsvd(A4, svals_true=None, tol=1e-9, trunc=True):
     if U4.shape[:2] != (m, m) or V4.shape[:2] != (n, n) or s.shape != (k,):
         fail({"what": "shapes", "U": U4.shape, "V": V4.shape, "s": s.shape})
         return done()
-    if np.any(s < -1e-12 * sc) or np.any(np.diff(s) > 1e-10 * sc):
+    if not (np.all(s >= -1e-12 * sc) and np.all(np.diff(s) <= 1e-10 * sc)):
         fail({"what": "singular values not non-negative non-increasing", "s": s})
     if not np.allclose(s, sv, atol=tol * sc, rtol=0):
         fail({"what": "singular values differ from the true quaternion singular values", "got": s, "want": sv})
